@@ -25,6 +25,26 @@ Proof.
 Qed.
 Print Assumptions C16_backtrack_fits_partial.
 
+(* The same, instantiated with the real matcher and unfolded: for every operand the (trailing) template rows and
+   the rows of the result restricted to its innermost template-many dims span the same rational row space;
+   the bounds fit; every requested check holds on the returned schedule. *)
+Theorem C16_backtrack_fits_rowspace :
+  forall (checks : list (tmpl -> sched -> bool)) (T : tmpl) (fuel : nat) (s r : sched),
+    wf_schedb s = true -> wf_tmplb T = true ->
+    In r (fst (bt matches checks fuel T s 1)) ->
+    fewer_dims_than_template T r = false ->
+    Forall2 (fun tp sp => (pndims tp <= pndims sp)%nat /\
+                          Forall (span_cert (s_rows tp sp)) (t_rows tp sp) /\
+                          Forall (span_cert (t_rows tp sp)) (s_rows tp sp)) T r /\
+    bounds_fitb T r = true /\ forallb (fun c => c T r) checks = true.
+Proof.
+  intros c T f s r Hs HT Hin Hsafe.
+  pose proof (C16_backtrack_fits_partial matches c T f s r Hs HT Hin Hsafe) as H. unfold fitsb in H.
+  apply andb_true_iff in H as [H H3]. apply andb_true_iff in H as [H1 H2].
+  split; [exact (matches_sound T r H1) | split; assumption].
+Qed.
+Print Assumptions C16_backtrack_fits_rowspace.
+
 (* F12: the 1x8x8 matmul on the 3-dim gemm template (after canonicalize dropped the unit dim) *)
 Definition F12_template : tmpl :=
   [mkPat [Some 8; Some 8; Some 8] [[1; 0]; [0; 0]; [0; 1]] [0; 0];
